@@ -329,6 +329,8 @@ func rootScope(p *Prog, fn *ssa.Function) bool { return p.InPkgs(fn, "") }
 
 func c20r2(c *Ctx) {
 	indexRule(c, "C20-R2", "every index / slice expression of the root package is in range on every path", rootScope, 10)
+	// a classifier that folds the bytes of an identifier / address into a fixed-width word forgets the leading ones
+	shiftAccumulateRule(c, "C20-R2", rootScope)
 	const rule = "C20-R2b"
 	c.Rule(rule, "a metachain contract address is a contract address", 1)
 	fn := c.P.FuncByName("vmcommon.IsSmartContractOnMetachain")
@@ -459,6 +461,18 @@ func c20r3(c *Ctx) {
 					at := e.Term(st.Addr)
 					if rooted(at) {
 						bad = append(bad, "store through "+at+" at "+c.P.InstrPos(in))
+					}
+					// the result adopts merged-in objects by pointer (storage updates): an object found in the result's own
+					// collections may belong to an account merged in earlier, so it is never written in place either
+					if fa, ok := st.Addr.(*ssa.FieldAddr); ok && !rooted(at) {
+						_, fresh := fa.X.(*ssa.Alloc)
+						if bt := e.Term(fa.X); !fresh && bt != recv && !strings.HasPrefix(bt, "P:") {
+							if pt, ok := fa.X.Type().Underlying().(*types.Pointer); ok {
+								if nt, ok := pt.Elem().(*types.Named); ok && nt.Obj().Pkg() != nil && nt.Obj().Pkg().Path() == modPath {
+									bad = append(bad, "store into "+at+" at "+c.P.InstrPos(in)+": an object taken from the result's own collection (it may have been adopted from an account merged in earlier) is rewritten in place")
+								}
+							}
+						}
 					}
 					if strings.HasPrefix(at, recv+".") {
 						f := strings.TrimPrefix(at, recv+".")
